@@ -102,7 +102,7 @@ def convertOne (P : PhysConst K) (T : Transc K) (s : Samp K) (uin uout : FluxUni
 
 /-- `spectral_density_count` factors: bin widths of the wavelengths (as bin centres) × area -/
 def countFactors (w : List K) (area : K) : Except Err (List K) := do
-  let e ← binEdges w
+  let e ← calcBinEdges w
   let bw ← binWidths e
   pure (bw.map (· * area))
 
